@@ -562,4 +562,6 @@ def run(src, out):
     empgen.run(src, out, hdr)
     import acqgen
     acqgen.run(src, out, hdr)
+    import extragen
+    extragen.run(src, out, hdr)
     return hdr
